@@ -15,7 +15,7 @@ from ..models import authserver as A
 
 PROPERTY_ID = 'C06'
 LEVEL = 'exploration'
-RULE = ('real/EXTERNAL: the peer ids the kernel reports are drawn (own uid/gid, 1000/100, 70000/1000, 1000/1000) and the client names the peer uid. many_logins: 150 / 400 overlapping cookie logins (finished, cancelled, mixed) in a process whose descriptor limit is 48 '
+RULE = ('Cookie variants include stray-high-bytes (the right answer with bytes >= 0x80 mixed in: never accepted). real/EXTERNAL: the peer ids the kernel reports are drawn (own uid/gid, 1000/100, 70000/1000, 1000/1000) and the client names the peer uid. many_logins: 150 / 400 overlapping cookie logins (finished, cancelled, mixed) in a process whose descriptor limit is 48 '
         'above current use, then the exchange that was open all along answers with the right cookie. cookie_overlap: three cookie exchanges of one user in every order, finished or cancelled, optionally with one of them '
         'begun more than the cookie lifetime before the others (its keyring entry back-dated by 31 s): every non-aged exchange '
         'answered with the right cookie is accepted. '
@@ -591,6 +591,9 @@ def run_real(case):
                 resp = good
             elif v == 'hash-of-nothing':
                 resp = cchal + b' ' + binascii.hexlify(hashlib.sha1(b'').digest())
+            elif v == 'stray-high-bytes':
+                # the right answer with bytes outside ASCII sprinkled in: not the right answer
+                resp = b'\xff' + cchal + b' ' + good[:7] + b'\xc3\xa9' + good[7:] + b'\x80'
             elif v == 'concurrent':
                 # another connection runs its own exchange (challenge, right answer, BEGIN) while ours is pending;
                 # both present the right cookie, both must be accepted
@@ -635,6 +638,12 @@ def run_real(case):
             should = v in ('right', 'concurrent')
             if v == 'non-hex':
                 r = _exchange(srv, b'DATA zz')
+            elif v == 'stray-high-bytes':
+                # (the reference state machine of the scripted sub-checks allows a payload that is not ASCII text to be
+                # answered by ERROR, by REJECTED or by closing the connection; the same holds here - what is required is
+                # that it is never accepted)
+                r = _exchange(srv, b'DATA ' + _hx(resp))
+                dropped = srv.transport.disconnected
             else:
                 r = _exchange(srv, b'DATA ' + _hx(resp) if resp else b'DATA')
             if v != 'right' and _read_cookie(scratch, ctx, cid) is not None and not srv.transport.disconnected:
@@ -652,11 +661,11 @@ def run_real(case):
                             'case %r: last answer %r closed=%r' % (case, r, srv.transport.disconnected)))
         if not should and not authed and mech != 'ANONYMOUS':
             # the refusal itself must be an answer of the state machine, not a crash
-            if srv.transport.disconnected and log.get('exc') is None and not r:
+            if srv.transport.disconnected and log.get('exc') is None and not r and case.get('variant') != 'stray-high-bytes':
                 out.append(Disc('real.%s.refusal-closed-instead-of-REJECTED' % mech,
                                 'case %r: connection closed without REJECTED' % (case,)))
         if mech == 'DBUS_COOKIE_SHA1':
-            if _read_cookie(scratch, ctx, cid) is not None:
+            if _read_cookie(scratch, ctx, cid) is not None and not (case['variant'] == 'stray-high-bytes' and srv.transport.disconnected):
                 out.append(Disc('real.cookie.not-deleted-after-exchange', 'variant %s' % case['variant']))
             if srv.transport.disconnected is False and should is False and r and r[0][0] != 'REJECTED':
                 out.append(Disc('real.cookie.wrong-response-answer', repr(r)))
@@ -835,7 +844,7 @@ class _Refused(Exception):
 
 
 COOKIE_VARIANTS = ['right', 'right', 'concurrent', 'wrong-cookie', 'wrong-challenge', 'swapped', 'truncated', 'empty', 'one-field',
-                   'hash-of-nothing', 'replay']
+                   'hash-of-nothing', 'replay', 'stray-high-bytes']
 
 
 @st.composite
